@@ -41,6 +41,8 @@ def strategy(tier):
         "body": st.sampled_from([0, 0, 10, 3000]),
         "next": st.booleans(),
         "cuts": st.lists(st.integers(1, 12000), max_size=6),
+        # a read boundary exactly at / inside the CRLF that ends the request line or the head
+        "bcut": st.sampled_from([None, None, "rl-1", "rl", "rl+1", "rl+2", "head-3", "head-2", "head-1", "head"]),
     })
 
 
@@ -102,7 +104,15 @@ def run_case(case):
     line, fields, fsize = eff_limits(case)
     cfg = penv.make_cfg(limit_request_line=case["line"], limit_request_fields=case["fields"],
                         limit_request_field_size=case["fsize"], header_map=case["header_map"])
-    reqs, terminal = penv.observe(stream, penv_cap(case["cuts"], len(stream)), cfg)
+    cuts = list(case["cuts"])
+    if case.get("bcut"):
+        head_end = stream.find(b"\r\n\r\n") + 4
+        base, _, d = case["bcut"].partition("+") if "+" in case["bcut"] else (case["bcut"].partition("-")[0], "", "-" + case["bcut"].partition("-")[2] if "-" in case["bcut"] else "0")
+        off = (m["L"] if base == "rl" else head_end) + int(d or 0)
+        cuts.append(off)
+        if case.get("big_at", 0) % 2:
+            cuts = [off]                 # sometimes the boundary cut is the only one
+    reqs, terminal = penv.observe(stream, penv_cap(cuts, len(stream)), cfg)
     over = []
     band = []
     if line > 0:
